@@ -22,6 +22,7 @@ import (
 	"errors"
 	"fmt"
 	"strings"
+	"time"
 
 	NoKV "github.com/feichai0017/NoKV"
 	"github.com/feichai0017/NoKV/utils"
@@ -84,7 +85,22 @@ func genRMW(t *rapid.T) rmwCase {
 
 func rmwKey(i int) []byte { return []byte(fmt.Sprintf("ctr-%d", i)) }
 
+// runRMW retries a case whose scheduler run ended in a harness problem (overloaded machine);
+// only a problem that shows in three executions from scratch is reported (as inconclusive).
 func runRMW(c rmwCase, r *pbt.Rec) error {
+	var err error
+	for attempt := 0; attempt < 3; attempt++ {
+		err = runRMWOnce(c, r)
+		var f *pbt.Fail
+		if err == nil || !errors.As(err, &f) || f.Sig != "harness" {
+			return err
+		}
+		r.Label("harness-retry")
+	}
+	return err
+}
+
+func runRMWOnce(c rmwCase, r *pbt.Rec) error {
 	if len(c.Workers) == 0 || c.Ctrs <= 0 {
 		return nil
 	}
@@ -186,7 +202,8 @@ func runRMW(c rmwCase, r *pbt.Rec) error {
 			}
 			return nil
 		},
-		MaxSteps: 5000,
+		MaxSteps:    5000,
+		HangTimeout: 15 * time.Second,
 	})
 	for i, ops := range c.Workers {
 		s.Go(fmt.Sprintf("w%d", i), script(i, ops))
